@@ -437,6 +437,29 @@ def description_verbatim(check: Check, repo: Repo) -> None:
     ok = ok and len(sv) == 1 and any(k.arg == "value" and unparse(k.value) == "description" for k in sv[0].keywords)
     check.ob(rule, fn, "description printed verbatim, only re-indented", ok,
              "only the indentation replace is applied" if ok else f"extra text processing: {[unparse(c)[:60] for c in bad or repl]}")
+    # the same as a who-may-touch rule: the printed literal (the result of print_ast(StringValueNode(...)) and every local
+    # computed from it) is handed to no function at all and receives no method call other than that `.replace`
+    lit = {t.id for s_ in walk_body(fn) if isinstance(s_, ast.Assign) and any(isinstance(x, ast.Call) and call_name(x) == "print_ast" for x in ast.walk(s_.value))
+           for t in s_.targets if isinstance(t, ast.Name)}
+    grew = True
+    while grew:
+        grew = False
+        for s_ in walk_body(fn):
+            if isinstance(s_, ast.Assign) and any(isinstance(x, ast.Name) and x.id in lit for x in ast.walk(s_.value)):
+                for t in s_.targets:
+                    if isinstance(t, ast.Name) and t.id not in lit:
+                        lit.add(t.id)
+                        grew = True
+    touched = []
+    for c in calls:
+        if isinstance(c.func, ast.Attribute) and isinstance(c.func.value, ast.Name) and c.func.value.id in lit and c.func.attr != "replace":
+            touched.append(c)
+        if any(isinstance(x, ast.Name) and x.id in lit for a in list(c.args) + [k.value for k in c.keywords] for x in ast.walk(a)):
+            touched.append(c)
+    check.ob(rule, touched[0] if touched else fn, "the printed literal is handed to no other function", bool(lit) and not touched,
+             f"locals holding the literal: {sorted(lit)}; only concatenated and re-indented" if lit and not touched else
+             f"the literal is processed by {[unparse(c)[:60] for c in touched]}: block string content may change (white-space-only lines, "
+             "characters str.splitlines() treats as line ends)" if lit else "the local holding print_ast(...) was not found")
 
 
 # -- C18 ------------------------------------------------------------------------------------------
@@ -1402,6 +1425,23 @@ def assume_valid_fresh(check: Check, repo: Repo, rule: str = "ASSUME-VALID-FRESH
         exprs += [c.args[2] for c in ast.walk(mod.tree) if isinstance(c, ast.Call) and call_name(c).split(".")[-1] == "extend_schema_args" and len(c.args) >= 3]
     if len(exprs) < 3:
         raise AnalysisError("extend_schema / build_ast_schema: assume_valid hand-overs not found")
+    # a rebinding of the parameter itself (`assume_valid = assume_valid or assume_valid_sdl`) is a hand-over too:
+    # whatever is stored into the name must again be computed from the parameter alone
+    seen_fns: list[ast.AST] = []
+    for e0 in list(exprs):
+        f0 = enclosing_function(e0)
+        if f0 is None or isinstance(f0, ast.Lambda) or any(f0 is f for f in seen_fns):
+            continue
+        seen_fns.append(f0)
+        for s in ast.walk(f0):
+            tv: list[tuple[ast.AST, ast.AST]] = []
+            if isinstance(s, ast.Assign):
+                tv = [(t, s.value) for t in s.targets]
+            elif isinstance(s, (ast.AnnAssign, ast.AugAssign, ast.NamedExpr)) and getattr(s, "value", None) is not None:
+                tv = [(s.target, s.value)]
+            for t, v in tv:
+                if isinstance(t, ast.Name) and t.id == "assume_valid" and enclosing_function(s) is f0:
+                    exprs.append(v)
     for e0 in exprs:
         f0 = enclosing_function(e0)
         e = inline_locals(e0, f0, keep={"assume_valid"}) if f0 is not None and not isinstance(f0, ast.Lambda) else e0
